@@ -802,4 +802,98 @@ theorem alb_setscale_scale (A : ALB ℝ) (kold k t scbet a : ℝ) (hkold : kold 
   rw [hkold]
   field_simp
 
+/-- the coded numerator of `Reverse` in the Albers form `k0 x nx − 2 k0 y nρ0 + k0 y ny` is the shared one in `X = k0 x`, `Y = k0 y` -/
+theorem alb_reverse_drho (k0 n ρ ρ0 s c : ℝ) (hk : k0 ≠ 0) (hn : 0 < n) (hρ : 0 < ρ) (hρ0 : 0 ≤ ρ0) (hsc : s ^ 2 + c ^ 2 = 1) :
+    let x := ρ * s / k0
+    let y := (ρ0 - ρ * c) / k0
+    (k0 * x * (k0 * n * x) - 2 * k0 * y * (n * ρ0) + k0 * y * (k0 * n * y)) /
+      (RealLike.hypot (k0 * n * x) (n * ρ0 - k0 * n * y) + n * ρ0) = ρ - ρ0 := by
+  intro x y
+  have h := cone_reverse_drho n ρ ρ0 s c hn hρ hρ0 hsc
+  simp only [coneDrhoRev, two_real] at h
+  have ex : k0 * n * x = n * (ρ * s) := by simp only [x]; field_simp
+  have ey : k0 * n * y = n * (ρ0 - ρ * c) := by simp only [y]; field_simp
+  have e1 : k0 * x = ρ * s := by simp only [x]; field_simp
+  have e2 : k0 * y = ρ0 - ρ * c := by simp only [y]; field_simp
+  rw [ex, ey, ← h]
+  congr 1
+  rw [e1, mul_assoc 2 k0 y, e2]
+  ring
+
+/-- **Albers `Reverse ∘ Forward = id` on the kernel level**, for any inversion `tphif` of `txif`: for a consistent member
+    set (`nrho0 = a √m0²`, `scxi0 = hyp txi0`, `sxi0 = txi0/scxi0`, `n0 > 0`, `k0 ≠ 0`) and a point whose radius
+    `ρ = (nrho0 + n0 drho)/n0` is positive, `Reverse` applied to the `(x, y)` of `Forward` recovers `drho`, `tan ξ` and
+    `tan φ` exactly.  (The longitude comes back through `atan2(ρ sin θ, ρ cos θ)`, which is not unfolded here.) -/
+theorem alb_reverse_forward_kernel (tphif : ℝ → ℝ) (E : Ell ℝ) (A : ALB ℝ) (sphi cphi lam : ℝ)
+    (hc : (epsx : ℝ) ≤ cphi) (htphif : tphif (txif E (sphi / cphi)) = sphi / cphi)
+    (ha : E.a ≠ 0) (hq : E.qZ ≠ 0) (hk : A.k0 ≠ 0) (hn : 0 < A.n0) (hm : 0 < A.m02)
+    (hnr : A.nrho0 = E.a * Real.sqrt A.m02) (hs0 : A.scxi0 = hyp A.txi0) (hx0 : A.sxi0 = A.txi0 / hyp A.txi0)
+    (hW : 0 ≤ A.m02 - A.n0 * albDq E.qZ (txif E (sphi / cphi)) (txif E (sphi / cphi) / hyp (txif E (sphi / cphi))) A.txi0 A.sxi0)
+    (hρ : 0 < A.nrho0 + A.n0 * albDrho E.a A.m02 A.n0 A.nrho0
+            (albDq E.qZ (txif E (sphi / cphi)) (txif E (sphi / cphi) / hyp (txif E (sphi / cphi))) A.txi0 A.sxi0))
+    (hr0 : 0 ≤ A.nrho0)
+    (hε : RealLike.sq (epsx : ℝ) ≤ hyp A.txi0 ^ 2 / hyp (txif E (sphi / cphi)) ^ 2) :
+    let o := albForward E A sphi cphi lam
+    let r := albReverse tphif E A o.x o.y
+    r.drho = albDrho E.a A.m02 A.n0 A.nrho0
+        (albDq E.qZ (txif E (sphi / cphi)) (txif E (sphi / cphi) / hyp (txif E (sphi / cphi))) A.txi0 A.sxi0)
+      ∧ r.txi = txif E (sphi / cphi) ∧ r.tphi = sphi / cphi := by
+  intro o r
+  have hcmax : fmax (epsx : ℝ) cphi = cphi := by rw [fmax_real]; exact max_eq_right hc
+  have hn0 : A.n0 ≠ 0 := hn.ne'
+  generalize htxi : txif E (sphi / cphi) = txi at *
+  generalize hdq : albDq E.qZ txi (txi / hyp txi) A.txi0 A.sxi0 = dq at *
+  generalize hdrho : albDrho E.a A.m02 A.n0 A.nrho0 dq = drho at *
+  generalize hθ : A.k2 * A.n0 * lam = θ at *
+  have hsc : Real.sin θ ^ 2 + Real.cos θ ^ 2 = 1 := Real.sin_sq_add_cos_sq θ
+  obtain ⟨ρ0, hρ0⟩ : ∃ ρ0, ρ0 = A.nrho0 / A.n0 := ⟨_, rfl⟩
+  have hnr0 : A.nrho0 = A.n0 * ρ0 := by rw [hρ0]; field_simp
+  have hρ0nn : 0 ≤ ρ0 := by rw [hρ0]; exact div_nonneg hr0 hn.le
+  have hρpos : 0 < ρ0 + drho := by
+    have : ρ0 + drho = (A.nrho0 + A.n0 * drho) / A.n0 := by rw [hρ0]; field_simp
+    rw [this]; exact div_pos hρ hn
+  have hxy := cone_xy_closed A.n0 ρ0 drho (Real.sin θ) (Real.cos θ) lam hn0 hsc
+  -- the outputs of Forward
+  have hox : o.x = (ρ0 + drho) * Real.sin θ / A.k0 := by
+    simp only [o, albForward, hcmax, eqb_real, zero_real, hn0, decide_false, Bool.not_false, if_true, sin_real, htxi, hdq, hdrho, hθ]
+    rw [hnr0]
+    field_simp
+  have hoy : o.y = (ρ0 - (ρ0 + drho) * Real.cos θ) / A.k0 := by
+    simp only [o, albForward, hcmax, sin_real, cos_real, htxi, hdq, hdrho, hθ]
+    rw [hnr0, hxy.2]
+  -- Reverse
+  have ex : A.k0 * A.n0 * o.x = A.n0 * ((ρ0 + drho) * Real.sin θ) := by rw [hox]; field_simp
+  have ey : A.k0 * A.n0 * o.y = A.n0 * (ρ0 - (ρ0 + drho) * Real.cos θ) := by rw [hoy]; field_simp
+  have hh : RealLike.hypot (A.k0 * A.n0 * o.x) (A.nrho0 - A.k0 * A.n0 * o.y) = A.n0 * (ρ0 + drho) := by
+    rw [ex, ey, hnr0, hypot_real]
+    have e : (A.n0 * ((ρ0 + drho) * Real.sin θ)) ^ 2 + (A.n0 * ρ0 - A.n0 * (ρ0 - (ρ0 + drho) * Real.cos θ)) ^ 2
+        = (A.n0 * (ρ0 + drho)) ^ 2 := by
+      linear_combination (A.n0 ^ 2 * (ρ0 + drho) ^ 2) * hsc
+    rw [e, Real.sqrt_sq (by positivity)]
+  have hden : RealLike.hypot (A.k0 * A.n0 * o.x) (A.nrho0 - A.k0 * A.n0 * o.y) + A.nrho0 ≠ 0 := by
+    rw [hh, hnr0]; positivity
+  have hrd : r.drho = drho := by
+    simp only [r, albReverse, eqb_real, zero_real, two_real, hden, decide_false, Bool.not_false, if_true]
+    rw [hh, ex, ey, hnr0]
+    have e1 : A.k0 * o.x = (ρ0 + drho) * Real.sin θ := by rw [hox]; field_simp
+    have e2 : A.k0 * o.y = ρ0 - (ρ0 + drho) * Real.cos θ := by rw [hoy]; field_simp
+    rw [e1, mul_assoc 2 A.k0 o.y, e2]
+    have hd : A.n0 * (ρ0 + drho) + A.n0 * ρ0 ≠ 0 := by positivity
+    rw [div_eq_iff hd]
+    linear_combination (A.n0 * (ρ0 + drho) ^ 2) * hsc
+  have hdq' : dq = E.qZ * (txi / hyp txi - A.txi0 / hyp A.txi0) := by
+    rw [← hdq, hx0]; exact alb_dq E.qZ txi A.txi0
+  have hrt : r.txi = txi := by
+    have hrt0 : r.txi = albTxiRev A.txi0 (albDsxia E.a E.qZ A.scxi0 A.nrho0 A.n0 r.drho) := by
+      simp only [r, albReverse]
+    rw [hrt0, hrd, ← hdrho, hnr, alb_reverse_dsxia E.a E.qZ A.scxi0 A.m02 A.n0 dq ha hq hm hW, hs0, hdq']
+    have e : hyp A.txi0 * (E.qZ * (txi / hyp txi - A.txi0 / hyp A.txi0)) / E.qZ = hyp A.txi0 * (txi / hyp txi - A.txi0 / hyp A.txi0) := by
+      field_simp
+    rw [e]
+    exact alb_reverse_txi txi A.txi0 hε
+  refine ⟨hrd, hrt, ?_⟩
+  have hrp : r.tphi = tphif r.txi := by simp only [r, albReverse]
+  rw [hrp, hrt]
+  exact htphif
+
 end GeoVerif.Props.C11
